@@ -21,7 +21,7 @@ ovars == <<l, latch, reinfl, latched, sent, rcnt, cf>>
 
 Init == /\ l = 1 /\ latch = [e \in {1, 2} |-> -1] /\ latched = 0 /\ reinfl = [e \in {1, 2} |-> FALSE]
         /\ sent = [e \in {1, 2} |-> <<>>] /\ rcnt = [e \in {1, 2} |-> 0]
-        /\ cf = [stream |-> 1, clean |-> FALSE, forged |-> FALSE]
+        /\ cf = [stream |-> 1, clean |-> FALSE, forged |-> FALSE, nodelay |-> 0]
 
 Next ==
   /\ l <= Len(Trace) /\ l' = l + 1
@@ -29,7 +29,7 @@ Next ==
      IF t.ev = "reset"
        THEN /\ latch' = [e \in {1, 2} |-> -1] /\ latched' = 0 /\ reinfl' = [e \in {1, 2} |-> FALSE]
             /\ sent' = [e \in {1, 2} |-> <<>>] /\ rcnt' = [e \in {1, 2} |-> 0]
-            /\ cf' = [stream |-> t.cfg.stream, clean |-> t.clean, forged |-> t.forged]
+            /\ cf' = [stream |-> t.cfg.stream, clean |-> t.clean, forged |-> t.forged, nodelay |-> t.cfg.nodelay]
        ELSE
        /\ cf' = cf
        /\ IF t.ev = "op" /\ t.e \in {1, 2} /\ ~t.panic
@@ -102,7 +102,8 @@ C12_ShiftInvariant == l > 1 /\ Obs.ev = "pair" => Obs.a = Obs.b
 Snmp_RetransIsSum == IsOp => Obs.snmp.retrans = Obs.snmp.lost + Obs.snmp.fastearly
 
 (* ---- C18 ---- *)
-C18_RtoBounds == IsEndOp => RtoBounds(Obs.st)
+(* the minimum is the CONFIGURED one (30 ms in no-delay mode, 100 ms otherwise), not whatever the object says its minimum is *)
+C18_RtoBounds == IsEndOp => RtoBounds(Obs.st) /\ (IF cf.nodelay # 0 THEN RTO_NDL ELSE RTO_MIN) <= Obs.st.rx_rto
 C18_NoRetransOnCleanPath ==
   IsEndOp /\ cf.clean => /\ Obs.adm.lost = 0
                          /\ \A i \in 1..Len(Obs.st.snd_buf) : Obs.st.snd_buf[i].xmit <= 1
